@@ -16,7 +16,7 @@ LEVEL_TEXT = ('partial. Lean 4 theorems, for all cubes/patterns/oversampling/fra
               'the Bayer mosaic (np.tile then np.repeat on both axes) has the image shape when the size is a multiple of d*os (one-row '
               'non-multiples are broadcast to an empty result by NumPy: modelled, outside the quantifier) and assigns to sub-pixel (i,j) the colour '
               'pattern[(i/os)%d][(j/os)%d]; equal QEs reproduce the monochrome result and the channels sum to the flat image; DN = max 0 (floor '
-              '(gain polynomial at the clipped count)) for the four gain forms with the exponents of the source power cube, steps in source order, never rounded up, never above the digitised capacity for curves non-decreasing on [0, cap] (adc_le_at_cap), refusal of a Bayer image iff its size is not a multiple (>= 2 rows/cols), non-negative, monotone for every gain curve that '
+              '(gain polynomial at the clipped count)) for the four gain forms with the exponents of the source power cube, steps in source order, never rounded up, never above the digitised capacity for curves non-decreasing on [0, cap] (adc_le_at_cap), all saturated pixels read the same DN (adc_saturated_pixels_agree), refusal of a Bayer image iff its size is not a multiple (>= 2 rows/cols), non-negative, monotone for every gain curve that '
               'is non-decreasing on [0, cap], warning iff a pixel exceeds capacity (condition hand-modelled). Hand model checked against lentil.detector on exact dyadic data.')
 LEVEL_NOTE = ('partial: "input frame untouched" and "requested dtype" are observed by the correspondence (read-only, snapshotted '
               'frames; dtype compared) and by the regenerated effect table of C10, not proved about NumPy; a non-flat Spectrum QE agrees with a '
